@@ -74,3 +74,13 @@ PROPS["C11"] = {
             "every single-byte flip and every truncation of a valid GCM value; structure-aware mutation (0-3 dimensions) of valid two-layer elements "
             "(algorithm/digest identifiers, certificates, cipher values absent/bad base64/truncated/extended/flipped, nested or removed EncryptedKey)",
 }
+
+PROPS["C05"] = {
+    "modules": ["SamlVerif.Props.C05"],
+    "trusted_base": ["modelled, not verified: base64/inflate decoding and encoding/xml unmarshalling of the AuthnRequest (the model starts from the unmarshalled "
+                     "fields; the harness sends real GET-deflate and POST encodings through NewIdpAuthnRequest + Validate)"],
+    "assumptions": ["freshness is read one-sidedly (now <= IssueInstant + MaxIssueDelay), as the anchored code words it"],
+    "rule": "random requests over present/absent/forged Issuer, Destination, Version, IssueInstant (freshness boundary lattice), ACS URL and index (incl. "
+            "non-canonical index spellings) against registries with 0-3 SPSSODescriptors x 0-4 endpoints (bindings POST/Redirect/Artifact/unknown, duplicate "
+            "and negative indices, isDefault none/true/false, duplicate locations), registry errors; GET-deflate and POST; IdP-initiated launches through ServeIDPInitiated",
+}
